@@ -149,6 +149,7 @@ func Main() (retcode int) { //nolint:funlen // we do have quite a lot of flags a
 	options.All = true
 	s := eval.NewState()
 	s.NoReg = *noRegister
+	s.MaxDepth = options.MaxDepth // -max-depth was only honored by -c and the interactive mode.
 	if options.ShebangMode {
 		script := flag.Arg(0)
 		// remaining := flag.Args()[1:] // actually let's also pass the name of the script as arg[0]
@@ -189,6 +190,8 @@ func Main() (retcode int) { //nolint:funlen // we do have quite a lot of flags a
 		}
 		if !*sharedState {
 			ns := eval.NewState()
+			ns.NoReg = s.NoReg
+			ns.MaxDepth = s.MaxDepth
 			ns.Out = s.Out
 			ns.LogOut = s.LogOut
 			s = ns
